@@ -1,6 +1,6 @@
-(* Extraction of the diagram model with the shipped data set's float-free view (ExtrOcamlBasic only). *)
+(* Extraction of the diagram model with the float-free views of the shipped and the synthetic data set (ExtrOcamlBasic only). *)
 From Coq Require Import Extraction ExtrOcamlBasic.
 From RD Require Import Base Lib.Py Model.Digraph Model.DigraphD.
-From RD Require Import Proofs.CertDefault.Graphs.
+From RD Require Import Proofs.CertDefault.Graphs Proofs.CertSynth.SynthGraphs.
 Extraction Language OCaml.
-Extraction "gmodel.ml" build default_gv g_name nodes edges.
+Extraction "gmodel.ml" build default_gv synth_gv g_name nodes edges.
